@@ -421,3 +421,17 @@ def bind_args(call: ast.Call, fn: ast.FunctionDef, skip_self: bool = False) -> d
         if k.arg:
             out[k.arg] = k.value
     return out
+
+
+def expand_aliases(ci, text: str) -> str:
+    """`self.<p>` -> the attribute chain a trivial getter `<p>` of the class returns (`return self.a.b`), so that a
+    convenience property (ACSE.ae = self.assoc.ae) reads like the chain it stands for"""
+    if ci is None:
+        return text
+    for name, g in ci.getters.items():
+        body = [x for x in g.body if not (isinstance(x, ast.Expr) and isinstance(x.value, ast.Constant))]
+        if len(body) == 1 and isinstance(body[0], ast.Return) and isinstance(body[0].value, ast.Attribute):
+            chain = norm(body[0].value)
+            if chain.startswith("self.") and chain != f"self.{name}" and re.fullmatch(r"self(\.\w+)+", chain):
+                text = re.sub(rf"\bself\.{name}\b(?!\w)", chain, text)
+    return text
